@@ -39,6 +39,67 @@ def run(chk: Check, proj: Project) -> None:
     s4(chk, proj, w)
     s5(chk, proj, w)
     s6(chk, proj, w)
+    s7_own_backend(chk, proj)
+
+
+def _django_cache_param_keys() -> Dict[str, Set[str]]:
+    """Which keys Django's BaseCache.__init__ reads from `params` and which from params['OPTIONS'] - taken from the
+    installed Django source (parsed, not imported)."""
+    import importlib.util
+
+    spec = importlib.util.find_spec("django.core.cache.backends.base")
+    if spec is None or not spec.origin:
+        raise AnalysisError("django.core.cache.backends.base not found")
+    tree = ast.parse(open(spec.origin).read())
+    init = next((f for c in ast.walk(tree) if isinstance(c, ast.ClassDef) and c.name == "BaseCache" for f in c.body if isinstance(f, ast.FunctionDef) and f.name == "__init__"), None)
+    if init is None:
+        raise AnalysisError("BaseCache.__init__ not found in the installed Django")
+    out: Dict[str, Set[str]] = {"params": set(), "options": set(), "int": set()}
+    for c in ast.walk(init):
+        if isinstance(c, ast.Call) and isinstance(c.func, ast.Attribute) and c.func.attr == "get" and isinstance(c.func.value, ast.Name) and c.args and isinstance(c.args[0], ast.Constant):
+            if c.func.value.id in out:
+                out[c.func.value.id].add(str(c.args[0].value))
+    # keys whose value goes through int(...) inside try/except (a non-int silently becomes the default)
+    for t in [x for x in ast.walk(init) if isinstance(x, ast.Try)]:
+        for c in ast.walk(t):
+            if isinstance(c, ast.Call) and norm(c.func) == "int" and c.args and isinstance(c.args[0], ast.Name):
+                v = c.args[0].id
+                for a in ast.walk(init):
+                    if isinstance(a, ast.Assign) and isinstance(a.targets[0], ast.Name) and a.targets[0].id == v:
+                        for g in ast.walk(a.value):
+                            if isinstance(g, ast.Call) and isinstance(g.func, ast.Attribute) and g.func.attr == "get" and g.args and isinstance(g.args[0], ast.Constant):
+                                out["int"].add(str(g.args[0].value))
+    return out
+
+
+def s7_own_backend(chk: Check, proj: Project) -> None:
+    chk.rule("S7", "the library's own fallback cache backend is configured with keys Django actually reads (entry limit and cull frequency live under OPTIONS) and with values Django can use (a non-integer limit silently becomes 300 entries, so scripts cached earlier in the same render are evicted before they are collected or fetched)")
+    m, f = proj.func("cache", "get_component_media_cache")
+    chk.analysed(fkey(m, f))
+    keys = _django_cache_param_keys()
+    if "MAX_ENTRIES" not in keys["options"] or "OPTIONS" not in keys["params"]:
+        raise AnalysisError(f"unexpected shape of Django's BaseCache.__init__: {keys}")
+    cs = [c for c in calls(f) if last_attr(c.func) == "LocMemCache" and len(c.args) >= 2 and isinstance(c.args[1], ast.Dict)]
+    if len(cs) != 1:
+        chk.undecided("S7", "cache:get_component_media_cache:own-backend-params", m.loc(f), f"{len(cs)} LocMemCache(...) constructions with a literal params dict")
+        return
+    d = cs[0].args[1]
+    top = {str(k.value): v for k, v in zip(d.keys, d.values) if isinstance(k, ast.Constant)}
+    ignored = sorted(k for k in top if k not in keys["params"])
+    chk.ob("S7", "cache:get_component_media_cache:keys-are-read-by-django", m.loc(cs[0]), not ignored,
+           f"every top-level key {sorted(top)} is one that BaseCache.__init__ reads from params" if not ignored else
+           f"top-level key(s) {ignored} are never read by Django's BaseCache (it looks for them under params['OPTIONS']): the intended 'no max size' is ignored and the media cache holds 300 entries - a page with more than ~150 components with JS and CSS loses scripts during its own render")
+    opts = top.get("OPTIONS")
+    eff = {}
+    if isinstance(opts, ast.Dict):
+        eff = {str(k.value): v for k, v in zip(opts.keys, opts.values) if isinstance(k, ast.Constant)}
+    lim = eff.get("MAX_ENTRIES", top.get("max_entries"))
+    okl = lim is not None and not (isinstance(lim, ast.Constant) and not isinstance(lim.value, int))
+    if okl and isinstance(lim, ast.Constant):
+        okl = lim.value >= 100000
+    chk.ob("S7", "cache:get_component_media_cache:entry-limit-effective", m.loc(lim) if lim is not None and hasattr(lim, "lineno") else m.loc(cs[0]), okl,
+           f"the entry limit Django will use is `{norm(lim)}`" if okl else
+           f"the entry limit Django will use is its default of 300 (configured: `{norm(lim) if lim is not None else 'nothing under OPTIONS'}`; int(None) falls back to the default): scripts of a large page are culled between being cached and being collected / fetched")
 
 
 def _twin_dump(f, amap) -> str:
